@@ -14,3 +14,6 @@ LEVEL_TEXT = ("Deductive, with NaN first-class in the value domain: holdings_val
               "transact; transact itself has no exceptional exit under valid trade quotes.")
 EXPLANATION = LEVEL_TEXT
 EXTRA_ASSUMPTIONS = ["ASSUMED contract TrackRecord._checkpoint (append one record / reject duplicate timestamp): not verified deductively"]
+
+from shell import runtime as _runtime
+SHELL = [_runtime.contracts_at_run_time]
